@@ -192,8 +192,68 @@ def run(prop, tier):
     return lines, rc
 
 
+DESIGN = {'quick': dict(every=4, scale=1, timeout=1500, sim=600, depth=120),
+          'thorough': dict(every=1, scale=2, timeout=6000, sim=6000, depth=160)}
+
+
+def _design(tier):
+    from . import floor_mc as M
+    D = DESIGN[tier]
+    cfgs = M.design_family(C.seed(), D['scale'])[::D['every']]
+    for i, c in enumerate(cfgs):
+        c['cid'] = i + 1
+    stage = C.stage_specs(C.scratch('floor_design'), {'FloorCfgs.tla': M.render_cfgs(cfgs)})
+    r = P.design_check(stage, 'FloorMC', 'FloorMC.cfg', timeout=D['timeout'], heap='12g')
+    res = {'states': r.distinct, 'transitions': r.generated, 'depth': r.depth, 'wall': round(r.wall, 1),
+           'configurations': len(cfgs), 'cfg': 'FloorMC.cfg',
+           'what': 'FloorMC: every tie-break order of every configuration of the design family; all observer clauses '
+                   'that do not need recorded datapoints (C02 C03 C04 C05 C06 C08 C11 C13 C17) hold on every step'}
+    # behaviours of the closed specification (a sample of the completed runs TLC found), replayed on the
+    # real package with the dispatch order forced
+    beh = []
+    for t in r.tuples('HIST'):
+        beh.append((t[1], [tuple(x) for x in json.loads(t[2])]))
+    beh = beh[:D['sim']]
+    jobs = [(i + 1, cfgs[cid - 1], hist) for i, (cid, hist) in enumerate(beh)]
+    out = C.parallel_map(_replay_forced, jobs)
+    traces = [o[0] for o in out]
+    fails, nlines, wall = P.validate_traces(stage, 'FloorTrace', 'FloorTrace.cfg', traces, heap='4g')
+    res['behaviours_replayed'] = len(jobs)
+    res['replay_lines'] = nlines
+    res['replay_order_divergences'] = sum(o[2] for o in out)
+    res['replay_errors'] = [o[1] for o in out if o[1]][:5]
+    res['replay_state_divergences'] = sum(1 for f in fails if f[2] in ('D.StepFn', 'D.Init'))
+    res['replay_clause_failures'] = sorted({f[2] for f in fails if not f[2].startswith('D.')})
+    res['sample_behaviour'] = {'cid': beh[0][0], 'dispatch_order': beh[0][1][:12]} if beh else None
+    return res
+
+
+def _replay_forced(job):
+    from . import floor_tracer as T
+    tid, cfg, hist = job
+    state = {'i': 0, 'div': 0}
+
+    def force(tr, group):
+        if state['i'] >= len(hist):
+            return None
+        want = hist[state['i']]
+        for e in group:
+            pe = tr.proj_event(e)
+            if pe[3] == 'term':
+                return e if len(group) == 1 else None
+            if pe[2] == want[0] and pe[3] == want[1]:
+                state['i'] += 1
+                return e
+        state['div'] = 1
+        state['i'] += 1
+        return None
+    cfg = dict(cfg, splits=[])
+    lines, err = T.run_cfg(tid, cfg, 0, force=force)
+    return lines, err, state['div']
+
+
 def design_result(tier):
-    return None
+    return P.cached('floor_design', tier, lambda: _design(tier))
 
 
 def replay(sc):
